@@ -66,7 +66,7 @@ def parse_host_port(address, default_port=None):
 
     if address[0] == '[':
         # Escaped ipv6
-        _host, _port = address[1:].split(']')
+        _host, _port = address[1:].rsplit(']', 1)
         host = _host
         if ':' in _port:
             port = _port.split(':')[1]
